@@ -819,3 +819,42 @@ MUTANTS += [
  dict(id="C16-pending-count-hashes", props=["C16"], expect={"C16": r"routing#pending_count"},
       edits=[(HCN, "                let pending_worker_responses = info_hashes_by_worker.len();", "                let pending_worker_responses = info_hashes_by_worker.values().map(|v| v.len()).sum::<usize>().min(info_hashes_by_worker.len() + 1);")]),
 ]
+
+WCN = "crates/ws/src/workers/socket/connection.rs"
+MUTANTS += [
+ dict(id="C17-return-before-after-close", props=["C17"], expect={"C17": r"cleanup#always_runs"},
+      edits=[(WCN, "        ::log::debug!(\"connection {:?} starting clean up\", connection_id);\n", "        ::log::debug!(\"connection {:?} starting clean up\", connection_id);\n        if config.network.enable_http_health_checks && config.cleaning.max_connection_idle == 0 { return; }\n")]),
+ dict(id="C17-answer-meta-split", props=["C17", "C09"], expect={"C17": r"pair#out_message_meta", "C09": r"answers#"},
+      edits=[(WST, "                let meta = OutMessageMeta {\n                    out_message_consumer_id: answer_receiver.consumer_id,\n                    connection_id: answer_receiver.connection_id,", "                let meta = OutMessageMeta {\n                    out_message_consumer_id: answer_receiver.consumer_id,\n                    connection_id: request_sender_meta.connection_id,")]),
+ dict(id="C17-send-before-recording", props=["C17"], expect={"C17": r"record#before_send"},
+      edits=[(WCN, """                Entry::Vacant(entry) => {
+                    entry.insert(request.peer_id);
+""", """                Entry::Vacant(entry) => {
+                    if self.config.network.enable_http_health_checks { entry.insert(request.peer_id); }
+""")]),
+ dict(id="C17-empty-scrape-unanswered-again", props=["C17"], expect={"C17": r"pending#registered_only_if_asked"},
+      edits=[(WCN, """        if info_hashes_by_worker.is_empty() {
+            self.send_error_response(
+                "No info hashes in scrape request".into(),
+                Some(ErrorResponseAction::Scrape),
+                None,
+            )
+            .await?;
+
+            return Ok(());
+        }
+""", "")]),
+ dict(id="C17-second-peer-id-tolerated", props=["C17"], expect={"C17": r"record#(second_peer_id_refused|before_send)"},
+      edits=[(WCN, """                        return Err(anyhow::anyhow!(
+                            "Peer used more than one PeerId for a single torrent"
+                        ));""", """                        ::log::debug!("Peer used more than one PeerId for a single torrent");
+                        announced_info_hashes = self.clean_up_data.announced_info_hashes.borrow_mut();""")]),
+ dict(id="C17-swarm-sends-to-consumer-zero", props=["C17"], expect={"C17": r"pair#swarm_send"},
+      edits=[("crates/ws/src/workers/swarm/mod.rs", "                        .send_to(meta.out_message_consumer_id.0 as usize, (meta, out_message))", "                        .send_to((meta.out_message_consumer_id.0 as usize) % 1, (meta, out_message))")]),
+ dict(id="C17-close-routed-by-other-function", props=["C17"], expect={"C17": r"cleanup#same_routing_function"},
+      edits=[(WCN, "        for (info_hash, peer_id) in self.announced_info_hashes.take().into_iter() {\n            let consumer_index = calculate_in_message_consumer_index(config, info_hash);", "        for (info_hash, peer_id) in self.announced_info_hashes.take().into_iter() {\n            let consumer_index = (info_hash.0[1] as usize) % config.swarm_workers;")]),
+ dict(id="C17-merged-reply-one-part-early", props=["C17"], expect={"C17": r"pending#merge_when_last"},
+      edits=[(WCN, "                    if pending_response.pending_worker_out_messages == 0 {", "                    if pending_response.pending_worker_out_messages <= 1 {")]),
+ dict(id="C17-stopped-keeps-record", props=["C17"], expect={"C17": r"record#stopped_forgets"},
+      edits=[(WCN, "            if let Some(AnnounceEvent::Stopped) = request.event {\n                announced_info_hashes.remove(&request.info_hash);\n            }", "            if let Some(AnnounceEvent::Stopped) = request.event {\n                announced_info_hashes.shrink_to_fit();\n            }")]),
+]
